@@ -337,6 +337,23 @@ def sp_copyof(eng, node, st):
     raise ContractError("copyof() of %r" % (v.k,))
 
 
+def sp_rows_of(eng, node, st):
+    """rows_of(A, idx): the rows of the 2-D array A selected by the integer list idx (same model as A[idx, :])"""
+    from . import models
+    return models.gather_rows(eng, st, eng.ev(node.args[0], st), eng.ev(node.args[1], st), node)
+
+
+def sp_cov(eng, node, st):
+    """cov(M, biased): same uninterpreted function as np.cov(M, bias=biased)"""
+    from . import models
+    return models.np_cov(eng, st, [eng.ev(node.args[0], st)], {'bias': eng.ev(node.args[1], st)}, node)
+
+
+def sp_colmean(eng, node, st):
+    from . import models
+    return models.np_mean(eng, st, [eng.ev(node.args[0], st)], {'axis': vint(0)}, node)
+
+
 def sp_transpose(eng, node, st):
     from . import models
     return models.transpose(eng, st, eng.ev(node.args[0], st))
@@ -352,7 +369,7 @@ def sp_cnt(eng, node, st):
     return vint(models.cnt(eng, st, a)(a, k, p))
 
 
-SPEC_BUILTINS = dict(cnt=sp_cnt, psum=sp_psum, rsum=sp_rsum, norm=sp_norm, sqrt=sp_sqrt, matmul=sp_matmul, copyof=sp_copyof, transpose=sp_transpose, eigh_of=sp_eigh_of, forall=sp_forall, exists=sp_exists, implies=sp_implies, ite=sp_ite, old=sp_old,
+SPEC_BUILTINS = dict(cnt=sp_cnt, psum=sp_psum, rsum=sp_rsum, norm=sp_norm, sqrt=sp_sqrt, matmul=sp_matmul, copyof=sp_copyof, rows_of=sp_rows_of, cov=sp_cov, colmean=sp_colmean, transpose=sp_transpose, eigh_of=sp_eigh_of, forall=sp_forall, exists=sp_exists, implies=sp_implies, ite=sp_ite, old=sp_old,
                      fresh=sp_fresh, same=sp_same, unchanged=sp_unchanged, isnone=sp_isnone, real=sp_real,
                      eqcontent=sp_eqcontent, let=sp_let, alloc_now=sp_alloc)
 
@@ -559,6 +576,10 @@ def call_repo(eng, qualname, args, kwargs, st, node):
         return construct(eng, cname, args, kwargs, st, node)
     c = S.CONTRACTS.get(qualname)
     mod, fdef = eng.repo.find_function(qualname)
+    # a variant of the caller (e.g. '#arrays') selects the same variant of the callee when it exists
+    cur = eng.frame.qualname if eng.frame else ''
+    if '#' in cur and (qualname + '#' + cur.split('#', 1)[1]) in S.CONTRACTS:
+        c = S.CONTRACTS[qualname + '#' + cur.split('#', 1)[1]]
     if c is None:
         # contract variants (same function, different parameter kinds): pick the one the actuals fit
         for vq, vc in S.CONTRACTS.items():
